@@ -650,3 +650,27 @@ V('c02-shape-classlevel-unpack', 'C02', 'C02.R2',
          "                classpath, klass = obj"), 'unpacking')
 V('c02-shape-enumqual-no-check', 'C02', 'C02.R2',
   (OPSF, "                if not isinstance(qualifierdecl, CIMQualifierDeclaration):", "                if qualifierdecl is None:"), 'unchecked-return')
+
+# ---- C16: request threads joined by server_close() -------------------------
+LSF = 'pywbem/_listener.py'
+V('c16-daemon-threads', 'C16', 'C16.R2',
+  (LSF, "    allow_reuse_address = True\n", "    allow_reuse_address = True\n    daemon_threads = True\n"), 'request-threads-not-joined')
+V('c16-no-block-on-close', 'C16', 'C16.R2',
+  (LSF, "    allow_reuse_address = True\n", "    allow_reuse_address = True\n    block_on_close = False\n"), 'request-threads-not-joined')
+
+# ---- C03.R3b/R3c, C10.R1b/R2b, E3 index primitive ---------------------------
+V('c03-ns-filtered', 'C03', 'C03.R3c',
+  ('pywbem/_cim_operations.py', "                             for ns in namespace.split('/')]),", "                             for ns in namespace.split('/') if ns]),"), 'may-be-empty')
+V('c03-class-child-order', 'C03', 'C03.R3b',
+  ('pywbem/_cim_xml.py', "        children = []\n        if qualifiers:\n            children.extend(qualifiers)\n        if properties:\n            children.extend(properties)\n        if methods:\n            children.extend(methods)\n        self.appendChildren(children)",
+   "        children = []\n        if properties:\n            children.extend(properties)\n        if qualifiers:\n            children.extend(qualifiers)\n        if methods:\n            children.extend(methods)\n        self.appendChildren(children)"), 'child-sequence')
+V('c03-instance-wrong-child', 'C03', 'C03.R3b',
+  ('pywbem/_cim_obj.py', "            properties=[p.tocimxml() for p in self.properties.values()],\n            qualifiers=[q.tocimxml() for q in self.qualifiers.values()])\n\n        if self.path is None or ignore_path:",
+   "            properties=[q.tocimxml() for q in self.qualifiers.values()],\n            qualifiers=[p.tocimxml() for p in self.properties.values()])\n\n        if self.path is None or ignore_path:"), 'child-sequence')
+V('c10-create-key-alias', 'C10', 'C10.R1',
+  ('pywbem_mock/_inmemoryrepository.py', "        self._data[deepcopy(name)] = deepcopy(cim_object)", "        self._data[name] = deepcopy(cim_object)"), 'key-not-copied')
+V('c10-enum-names-shallow', 'C10', 'C10.R2',
+  ('pywbem_mock/_mainprovider.py', "        inst_paths = [inst.path for inst in instance_store.iter_values()\n                      if inst.path.classname in clns]\n\n        return_paths = [path.copy() for path in inst_paths]\n",
+   "        return_paths = [path for path in instance_store.iter_names()\n                        if path.classname in clns]\n"), 'shallow-name-returned')
+V('c02-split-index', 'C02', 'C02.R1',
+  ('pywbem/_cim_http.py', "            server_auths = [sa.split(' ')[0] for sa in server_auths]", "            server_auths = [sa.split()[0] for sa in server_auths]"), 'IndexError')
